@@ -276,9 +276,15 @@ def check_variant(arg):
             sh_o.bits = sh.bits
             sub = [(b, z3.BoolVal(True)) for b in sh_o.req_bits]
             req_ids = list(T)
-        else:
+        elif all(r in sh.requests for r in requested):
             sh_o = sh
             sub = [(b, z3.BoolVal(t in requested)) for b, t in zip(sh.req_bits, sh.requests)]
+        else:
+            # a command line with spellings outside the shape's own request list: the reference is built for exactly these names
+            sh_o = resolve.Shape(sh.name, sh.root_name, sh.projects, sh.refs, list(requested), **({'imports': sh.imports} if sh.imports is not None else {}))
+            sh_o.bits = sh.bits
+            sub = [(b, z3.BoolVal(True)) for b in sh_o.req_bits]
+        if requested is not None:
             req_ids = []
             for r in requested:
                 rs = sh.resolve(sh.root_name, r)
@@ -379,6 +385,8 @@ STAGE_OBLIGATIONS = {
     'C19': ('main_does_not_panic', 'main_rejects_exactly_broken_graphs', 'engine_gets_exactly_the_requested_roots', 'engine_gets_the_dependency_closure'),
     'C14': ('main_does_not_panic', 'a_rejected_configuration_deletes_nothing'),
     'C12': ('main_does_not_panic', 'clean_forgets_the_state_of_the_whole_closure', 'clean_touches_no_state_outside_the_closure'),
+    # an aggregate on the command line / its dependencies on the command line instead: each is resolved to the closure the reference gives
+    'C20': ('main_does_not_panic', 'main_rejects_exactly_broken_graphs', 'engine_gets_the_dependency_closure'),
 }
 ASSUMPTION = ('MAINRUN: main() is executed from its first statement; stubbed at the process boundary only: clap (the described command line; names outside the '
               'possible values computed by the real code are rejected), stderrlog, Config::load_project (already-parsed project values), dunce::canonicalize '
@@ -461,6 +469,25 @@ def stage(prop, tier, repo, jobs):
     shs = resolve.shapes(tier)
     args = []
     for i, sh in enumerate(shs):
+        if prop == 'C20':
+            # every aggregate of the shape, in every accepted spelling; and the spellings of what it lists, requested instead
+            root = sh.root_name
+            for (pj, t), kind in [((pj, t), k) for pj, d in sh.projects.items() for t, k in d['targets'].items()]:
+                if kind != 'aggregate':
+                    continue
+                spell = lambda p_, t_: t_ if p_ is None else '%s::%s' % (p_, t_)
+                args.append((prop, i, [spell(pj, t)], False, tier, repo))
+                if pj == root and pj is not None:
+                    args.append((prop, i, [t], False, tier, repo))
+                listed = []
+                for (rp, rt, rk, text) in sh.refs:
+                    if (rp, rt) == (pj, t) and rk == 'dep':
+                        r = sh.resolve(pj, text)
+                        if r[0] == 'ok' and spell(*r[1]) not in listed:
+                            listed.append(spell(*r[1]))
+                if listed:
+                    args.append((prop, i, listed, False, tier, repo))
+            continue
         for rq, cl in cli_variants(sh, tier):
             if prop in ('C14', 'C12', 'C18') and not cl:
                 continue
